@@ -15,6 +15,8 @@ EXTENDS Integers, Sequences, FiniteSets, TLC
 CONSTANTS Actors, Parent, Roots, KidsOf, MaxRestarts,
           NMsg, SendTo, Toks, TokTarget, TokGraceful,
           Faults, IFaults, CrashKinds, Batch, Eager, MaxDup,
+          RespawnKids, \* TRUE: every incarnation's Started handler calls SpawnChild for its children again (a duplicate while
+                       \* the child is registered, a fresh child once the old one has gone)
           Succ,      \* actor -> the successor it spawns under its own id from inside its final Stopped handler ("none": nobody)
           FixD1, FixD2, FixD3, FixD4, FixD5, FixD12, FixD13, FixD14
 
@@ -189,20 +191,36 @@ SpawnKids(a) ==
                   /\ ExStep(a, [e EXCEPT !.pc = "recover", !.from = "start", !.crash = "none", !.pv = e.crash])
              ELSE /\ events' = Append(events, Ev("Started", a, 0))
                   /\ ExStep(a, [e EXCEPT !.pc = "afterstarted"])
-          /\ UNCHANGED <<reg, children, spawned>>
+          /\ UNCHANGED <<reg, children, spawned, status, ring, mbuf, closed, restarts>>
      ELSE LET c == Head(e.todo) IN
-          IF c \in spawned
-          THEN \* the scripted Started handler spawns each child once (first incarnation); duplicate ids are Registry.tla's subject
+          IF c \in spawned /\ ~RespawnKids
+          THEN \* the scripted Started handler spawns each child once (first incarnation)
                /\ ExStep(a, [e EXCEPT !.todo = Tail(@)])
-               /\ UNCHANGED <<reg, children, faults, ifaults, spawned, events>>
+               /\ UNCHANGED <<reg, children, faults, ifaults, spawned, events, status, ring, mbuf, closed, restarts>>
+          ELSE IF c \in spawned /\ reg[c]
+          THEN \* SpawnChild of a child that is registered: Registry.add publishes ActorDuplicateIdEvent and starts nothing
+               /\ events' = Append(events, Ev("DuplicateId", c, 0))
+               /\ ExStep(a, [e EXCEPT !.todo = Tail(@)])
+               /\ UNCHANGED <<reg, children, faults, ifaults, spawned, status, ring, mbuf, closed, restarts>>
+          ELSE IF c \in spawned
+          THEN \* the old child has gone (one process per name: it has to have gone completely): a fresh child under the same id
+               /\ ex[c].pc = "none"
+               /\ reg' = [reg EXCEPT ![c] = TRUE]
+               /\ Alive
+               /\ ex' = [ex EXCEPT ![a] = [e EXCEPT !.pc = "spawnwait"],
+                                   ![c] = [NoEx EXCEPT !.pc = "prod", !.base = "spawn"]]
+               /\ status' = [status EXCEPT ![c] = "stopped"] /\ ring' = [ring EXCEPT ![c] = <<>>] /\ mbuf' = [mbuf EXCEPT ![c] = <<>>]
+               /\ closed' = [closed EXCEPT ![c] = FALSE] /\ restarts' = [restarts EXCEPT ![c] = 0]
+               /\ children' = [children EXCEPT ![a] = IF FixD13 THEN @ \cup {c} ELSE @, ![c] = {}]
+               /\ UNCHANGED <<faults, ifaults, events, spawned>>
           ELSE /\ reg' = [reg EXCEPT ![c] = TRUE]
                /\ spawned' = spawned \cup {c}
                /\ Alive
                /\ ex' = [ex EXCEPT ![a] = [e EXCEPT !.pc = "spawnwait"],
                                    ![c] = [NoEx EXCEPT !.pc = "prod", !.base = "spawn"]]
                /\ children' = IF FixD13 THEN [children EXCEPT ![a] = @ \cup {c}] ELSE children
-               /\ UNCHANGED <<faults, ifaults, events>>
-  /\ UNCHANGED <<inc, restarts, status, ring, mbuf, closed, tok, nextMsg, spret, dead, overlap, dups, log, accepted, sentBefore, acted, done, issued>>
+               /\ UNCHANGED <<faults, ifaults, events, status, ring, mbuf, closed, restarts>>
+  /\ UNCHANGED <<inc, tok, nextMsg, spret, dead, overlap, dups, log, accepted, sentBefore, acted, done, issued>>
 
 SpawnWait(a) ==
   /\ ex[a].pc = "spawnwait" /\ Head(ex[a].todo) \in spret
